@@ -29,8 +29,11 @@ def FieldOK : Field → Prop
 
 /-- what `FieldStorage.read` counts against `max_memfile_size` for a field: its header block, plus
 the data of a text field -/
-def fieldCost (f : Field) : Nat :=
-  (utf8Encode (joinCRLF f.headerLines)).length + (match f with | .text _ v => (utf8Encode v).length | .file _ _ _ _ => 0)
+def dataCost : Field → Nat
+  | .text _ v => (utf8Encode v).length
+  | .file _ _ _ _ => 0
+
+def fieldCost (f : Field) : Nat := (utf8Encode (joinCRLF f.headerLines)).length + dataCost f
 
 def textBudget (fs : List Field) : Nat := (fs.map fieldCost).sum
 
@@ -179,5 +182,69 @@ theorem readLines_field (f : Field) (hf : FieldOK f) :
       simp only
       rw [readLine_ctype _ ctv (h4 ctv rfl)]
       simp [dictSet, fieldHeaders, fieldFilename, fieldCtype, Field.name, hd]
+
+/-! ### `FieldStorage.read` on one encoded part -/
+
+theorem utf8Encode_eq_nil (v : Str) (h : utf8Encode v = []) : v = [] := by
+  cases v with
+  | nil => rfl
+  | cons c cs =>
+    unfold utf8Encode at h
+    simp only [List.flatMap_cons, List.append_eq_nil_iff] at h
+    exact absurd h.1 String.utf8EncodeChar_ne_nil
+
+/-- the `FieldStorage` that `read` builds for a field whose data section is `(ds, de)` -/
+def fieldS (f : Field) (ds de : Int) : FieldS :=
+  match f with
+  | .text n v => ⟨n, some v, none, none, none, fieldHeaders f⟩
+  | .file n fn ct _ => ⟨n, none, some fn, some (ds, de), ct, fieldHeaders f⟩
+
+theorem readField_part (X : Bytes) (sp : Bool) (f : Field) (hf : FieldOK f) (hs ds : Nat) (mr : Int)
+    (hh : (X.drop hs).take (utf8Encode (joinCRLF f.headerLines)).length = utf8Encode (joinCRLF f.headerLines))
+    (hd : (X.drop ds).take f.data.length = f.data)
+    (hm : (fieldCost f : Int) ≤ mr) :
+    readField X sp (hs : Int) ((hs + (utf8Encode (joinCRLF f.headerLines)).length : Nat) : Int)
+      (ds : Int) ((ds + f.data.length : Nat) : Int) mr =
+      .ok (fieldS f ds ((ds + f.data.length : Nat) : Int), (fieldCost f : Int)) := by
+  have hlines := headerLines_ok f hf
+  have hrl := readLines_field f hf
+  have hsl := splitlines_joinCRLF _ hlines.2
+  have hcost : fieldCost f = (utf8Encode (joinCRLF f.headerLines)).length + dataCost f := rfl
+  generalize (utf8Encode (joinCRLF f.headerLines)).length = L at hh hcost ⊢
+  generalize fieldCost f = C at hcost hm ⊢
+  unfold readField
+  have e1 : ((hs + L : Nat) : Int) - (hs : Int) = (L : Int) := by omega
+  simp only [e1]
+  rw [if_neg (by omega)]
+  unfold srcRead
+  rw [if_neg (by omega)]
+  simp only
+  rw [if_neg (by omega)]
+  simp only [Int.toNat_natCast]
+  rw [hh, utf8Decode_encode]
+  simp only
+  rw [hsl, hrl]
+  simp only
+  cases f with
+  | text n v =>
+    simp only [fieldFilename, Field.name, Field.data, dataCost] at hd hcost ⊢
+    have e2 : ((ds + (utf8Encode v).length : Nat) : Int) - (ds : Int) = ((utf8Encode v).length : Int) := by omega
+    simp only [e2]
+    split
+    · rename_i hz
+      have : utf8Encode v = [] := List.eq_nil_of_length_eq_zero (by omega)
+      have hv := utf8Encode_eq_nil v this
+      subst hv
+      have hc0 : C = L := by rw [hcost]; simp [utf8Encode]
+      simp [fieldS, fieldCtype, hc0]
+    · rw [if_neg (by omega), if_neg (by omega)]
+      simp only [Int.toNat_natCast]
+      rw [if_neg (by omega), hd, utf8Decode_encode]
+      simp only [fieldS, fieldCtype, Except.ok.injEq, Prod.mk.injEq, true_and]
+      omega
+  | file n fn ct c =>
+    simp only [fieldFilename, Field.name, fieldS, fieldCtype, Except.ok.injEq, Prod.mk.injEq, true_and]
+    simp only [dataCost] at hcost
+    omega
 
 end Ombott.Forms
